@@ -158,6 +158,18 @@ def check_case(res, case):
             code, cname, back), case)
     # a status object is a value: building further objects (same code, other commands) or
     # anything else later must not change what this one says
+    if command is not None and (code in table or code % 257 == 0):
+        # the command is given as the response class, a subclass of it, or a message object
+        res.count('oracle.command-given-otherwise')
+        for how, cmd in (('subclass', type('Sub' + cname, (command,), {})), ('instance', command())):
+            try:
+                other = statuses.Status(code, cmd).status_type
+            except Exception as exc:
+                other = 'raised %r' % (exc,)
+            if other != flags[0]:
+                res.violation('classification-depends-on-how-the-command-is-given', 'C18.table',
+                              'Status(0x%04X, %s) is %s, with a %s of that class it is %s' % (
+                                  code, cname, flags[0], how, other), case)
     if code in table or code in GENERAL_FAILURE or code % 89 == 0 or want != 'Failure':
         res.count('oracle.value-stable')
         for other in COMMANDS:
@@ -181,6 +193,14 @@ def add_status_shard():
     case = {'add_status': True}
     store = dimsemessages.CStoreRSPMessage
     find = dimsemessages.CFindRSPMessage
+    # looked up before they are registered (unknown -> Failure) ...
+    early = [(c, cmd, statuses.Status(c, cmd).status_type) for c, cmd in (
+        (0x3100, None), (0x3100, store), (0x3100, find), (0x3200, store), (0x3008, store))]
+    for c, cmd, kind in early:
+        res.count('oracle.add-status')
+        if kind != 'Failure':
+            res.violation('unknown-code-not-failure', 'C18.table', 'Status(0x%04X, %s) is %s before anything '
+                          'is registered for it' % (c, getattr(cmd, '__name__', None), kind), case)
     statuses.add_status(0x3000, 'Warning', 'range test', end=0x3010, command=store)
     statuses.add_status(0x3100, 'Pending', 'general range', end=0x3101)
     statuses.add_status(0x3100, 'Cancel', 'specific wins', command=find)
